@@ -243,10 +243,12 @@ def model_covers(workdir: str, cfgname: str, streams: str | None) -> tuple[list,
 
 def random_jobs(rnd: random.Random, n: int) -> list:
     jobs = []
-    alphabet = [10, 10, 97, 59, 13, 255, 195, 169, 0xE2, 0x82, 0xAC, 0xF0, 0x9F, 0x98, 0x80, 48, 49, 32, 0xC0, 0xED, 0xA0]
+    alphabet = [10, 10, 97, 59, 13, 255, 195, 169, 0xE2, 0x82, 0xAC, 0xF0, 0x9F, 0x98, 0x80, 48, 49, 32, 0xC0, 0xED, 0xA0, 0xEF, 0xBB, 0xBF]
     for k in range(n):
         limit = rnd.choice([8, 16, 64, 2 ** 16])
         stream = [rnd.choice(alphabet) for _ in range(rnd.randint(0, 40))]
+        if k % 7 == 0:   # lines that begin with a byte-order mark, a lone CR, a NUL
+            stream = [0xEF, 0xBB, 0xBF] + stream[:6] + [10, 0xEF, 0xBB, 0xBF, 10, 13, 10, 0, 10] + stream[6:]
         cmds = [["connect", True]]
         pos = 0
         for _ in range(rnd.randint(1, 14)):
@@ -263,6 +265,9 @@ def random_jobs(rnd: random.Random, n: int) -> list:
                 cmds.append(["eof"])
             elif r < 0.93:
                 cmds.append(["ioerror"])
+            elif r < 0.97 and k % 5 == 0:
+                cmds += [["disconnect", rnd.choice(["none", "close", "wait"])], ["connect", rnd.random() < 0.7]]
+                stream, pos = stream[pos:], 0
         if rnd.random() < 0.5:
             if pos < len(stream):
                 cmds.append(["feed", stream[pos:]])
